@@ -2,7 +2,7 @@
    name.  This is what is extracted; the correspondence harness calls these
    and nothing else. *)
 From AK Require Import Base.Prelude Base.Sx Bytes.Text Bytes.FabHeader Bytes.BinFile
-  Reader.Select Reader.BoxRead Reader.Level Plotfile.TextHeader Taste.Taste Reader.ReadSpec Plotfile.Abstract Writers.Colander Writers.ColanderSpec Writers.Combine Writers.CombineSpec Writers.Chef Writers.Chk2plt
+  Reader.Select Reader.BoxRead Reader.Level Plotfile.TextHeader Taste.Taste Reader.ReadSpec Plotfile.Abstract Writers.Colander Writers.ColanderSpec Writers.Combine Writers.CombineSpec Writers.Chef Writers.Chk2plt Writers.ChefToolProofs
   Array.Paint Mandoline.Plate Mandoline.Slice3D Mandoline.SlicePlot Whip.Whip Pestle.Pestle Point.PointQuery Menu.Menu Paths.Posix.
 
 Definition as_Zs := as_list as_Z.
@@ -432,6 +432,24 @@ Definition e_chef (s : sx) : sx :=
   | _ => bad_request
   end.
 
+(* ---- C11: the SPECIFICATION side.  request: (plotfile keep names table) -> (image of the plotfile,
+   image of the cooked plotfile chef_spec, do the hypotheses of C11_tool on the recipe hold (recipe_fitsb on every level)) ---- *)
+Definition e_chef_spec (s : sx) : sx :=
+  match s with
+  | SL [a; keep; names; tbl] =>
+      req (do a <- dec_plotfile a; do keep <- as_Zs keep; do names <- as_Bs names;
+           do tbl <- as_list (fun x => match x with
+                                       | SL [lv; lo; hi; comps] => do lv <- as_nat lv; do lo <- as_Zs lo; do hi <- as_Zs hi; do c <- as_Bs comps; Some (lv, lo, hi, c)
+                                       | _ => None end) tbl;
+           Some (a, keep, names, tbl))
+          (fun '(a, keep, names, tbl) =>
+             let r := table_recipe tbl in
+             ok (SL [enc_pdisk (pf_disk a); enc_pdisk (pf_disk (chef_spec r keep names a));
+                     SZ (if forallb (fun kl => recipe_fitsb r keep names (fst kl) (snd kl))
+                                    (combine (seq 0 (length (pf_levels a))) (pf_levels a)) then 1 else 0)]))
+  | _ => bad_request
+  end.
+
 (* ---- C17: chk2plt, one level ----
    request: (boxes state_files state_cells gradp_files gradp_cells ir_files ir_cells do_gradp do_ir floored y_start ns) *)
 Definition e_chk2plt_level (s : sx) : sx :=
@@ -574,6 +592,7 @@ Definition entries : list (string * (sx -> sx)) :=
     ("point", e_point);
     ("combine", e_combine);
     ("chef", e_chef);
+    ("chef_spec", e_chef_spec);
     ("chk2plt_level", e_chk2plt_level);
     ("slice3d", e_slice3d);
     ("menu", e_menu);
